@@ -447,6 +447,10 @@ func (fd *Client) Query(input *dynamodb.QueryInput) (*dynamodb.QueryOutput, erro
 		return nil, fd.forceFailureErr
 	}
 
+	if strings.TrimSpace(aws.StringValue(input.KeyConditionExpression)) == "" {
+		return nil, awserr.New("ValidationException", "Either the KeyConditions or KeyConditionExpression parameter must be specified in the request.", nil)
+	}
+
 	err := validateExpressionAttributes(input.ExpressionAttributeNames, input.ExpressionAttributeValues, aws.StringValue(input.KeyConditionExpression), aws.StringValue(input.FilterExpression), aws.StringValue(input.ProjectionExpression))
 	if err != nil {
 		return nil, err
